@@ -34,6 +34,7 @@ import ASV.Proofs.LocMergeAdjacent
 import ASV.Proofs.LocExtend
 import ASV.Proofs.LocConnectRing
 import ASV.Proofs.LocOffsetArea
+import ASV.Proofs.LocOffsetGeneral
 import ASV.Proofs.LocConnectRingArc
 import ASV.Proofs.LocExtendArea
 namespace ASV.C04
@@ -284,6 +285,25 @@ theorem offset_rotates_origin_spanning (x y L k : Int) (s : Strand) (hL : 0 < L)
     ∃ r, offsetLocation (areaTwo x y L s) k L = .ok r ∧
       ∀ i, r.mem i = true ↔ (0 ≤ i ∧ i < L ∧ ∃ j, (areaTwo x y L s).mem j = true ∧ RotOf L k i j) :=
   ⟨_, offset_area_eq x y L k s hL hy0 hyx hxL, offAreaTwo_mem x y L k s hL hy0 hyx hxL⟩
+
+/-- the general case: a location with any number of parts, all on one strand, non-empty, inside `[0, L]` and
+    mutually disjoint, not as long as the whole record, shifted by any offset `0 < |k| < L`: the shift succeeds
+    and the result has exactly the bases of the location rotated by `k` (mod `L`), the same total length and
+    strand, parts inside the record and mutually disjoint — runs of abutting exons of any length included
+    (after the repair D58 of the merge step).  (A location as long as the record is returned unchanged by the
+    code; abutting pieces of different strands make it raise.) -/
+theorem offset_ring_rotates_general (l : Loc) (k L : Int) (s : Strand) (hne : l.parts ≠ [])
+    (hparts : ∀ p ∈ l.parts, 0 ≤ p.lo ∧ p.lo < p.hi ∧ p.hi ≤ L) (hs : ∀ p ∈ l.parts, p.strand = s)
+    (hdis : partsDisjoint l.parts = true) (hlen : l.len ≠ L) (hk : k ≠ 0) (hk0 : -L < k) (hk1 : k < L) :
+    ∃ r, offsetLocation l k L = .ok r ∧
+      (∀ i, r.mem i = true ↔ (0 ≤ i ∧ i < L ∧ ∃ j, l.mem j = true ∧ RotOf L k i j)) ∧
+      r.len = l.len ∧ r.strand = s ∧
+      (∀ p ∈ r.parts, 0 ≤ p.lo ∧ p.lo < p.hi ∧ p.hi ≤ L) ∧ partsDisjoint r.parts = true :=
+  offset_ring_general l k L s hne hparts hs hdis hlen hk hk0 hk1
+
+/-- three abutting exons before and over the origin, moved back by 80 on a ring of 100 (the D58 layout) -/
+example : offsetLocation (.compound [⟨90, 100, .fwd⟩, ⟨0, 5, .fwd⟩, ⟨5, 10, .fwd⟩, ⟨10, 15, .fwd⟩]) (-80) 100 =
+    .ok (.simple ⟨10, 35, .fwd⟩) := by rfl
 
 /-! ### extending (linear record) -/
 
